@@ -81,6 +81,12 @@ CHECKS.update({
                 ref='3 C19', note=MT_NOTE + ' The child program is the harness executable in --popen-child mode.'),
 })
 
+CHECKS.update({
+    'C14': dict(cat='exploration', tech='ThreadSanitizer (gcc -fsanitize=thread) on free-running multi-thread scenarios, every report block parsed and classified by racing location / outermost library frames',
+                text='Seven families of multi-thread scenarios (event posts with the owner unregistering other pending events, raw posts, work pools with continuations and shutdown, signal storms against register/unregister, children reaped across threads with owner-initiated unregistration, concurrent init/main/deinit of independent loops, iv_thread churn) run without any monitor or shim under TSan on all four poll methods, repeated with different seeds; a data race is tolerated only on the named one-way feature flags.',
+                ref='3 C14', note='Trusted: ThreadSanitizer\'s happens-before analysis (it only understands synchronisation it intercepts; epoll_pwait2 is made to fail with ENOSYS in this build so that the intercepted epoll_wait is used), the report parser in check. The harness itself shares only C11 atomics, two release/acquire flags, barriers and joins.'),
+})
+
 NOT_YET = {
 }
 
